@@ -504,7 +504,7 @@ theorem runM_blocks (C : Codecs) (c : Cmd) (hc : ConformsCore c = true)
     s'.head = [] ∧ (∀ sb, encBlock c s'.env .P = some sb → sb = s'.P) ∧
       (∀ sb, encBlock c s'.env .D = some sb → sb = s'.D) := by
   simp only [ConformsCore, Bool.and_eq_true, beq_iff_eq] at hc
-  obtain ⟨⟨⟨⟨⟨h1, h2⟩, h3⟩, h4⟩, h5⟩, h6⟩ := hc
+  obtain ⟨⟨⟨⟨⟨⟨h1, h2⟩, h3⟩, h4⟩, h5⟩, h6⟩, _⟩ := hc
   have hty := typeOf_of_mem c h3
   unfold runM at hrun
   refine ⟨run_head C c.isAndX c.marshal _ s' hl hrun, ?_, ?_⟩
@@ -534,31 +534,62 @@ theorem wordsBytes_even : ∀ (l : Bytes), l.length % 2 = 0 → wordsBytes l = l
     have : rest.length % 2 = 0 := by simp only [List.length_cons] at h; omega
     simp only [wordsBytes, wordsBytes_even rest this]
 
-theorem andxBlock_length (andx : Bool) : (andxBlock andx).length = 2 * andxWords andx := by
-  cases andx <;> rfl
+/-- outside the finding `be:AndXOffset` the AndX words the code writes are the AndX block of MS-CIFS
+    (`env2`: the command after `Marshal`, which the specification reads; `env1`: the command when the
+    prologue wrote the words) -/
+theorem andxBlock_eq (andx : Bool) (env1 env2 : Env) (ax : Bytes)
+    (hget : env2.get andxField = env1.get andxField)
+    (hbe : andxOffsetBigEndian andx env2 = false) (hs : andxBlock andx env2 = some ax) :
+    andxBytesOf andx env1 = ax ∧ ax.length = 2 * andxWords andx := by
+  cases andx with
+  | false =>
+    simp only [andxBlock, Bool.false_eq_true, if_false, Option.some.injEq] at hs
+    subst hs
+    exact ⟨rfl, rfl⟩
+  | true =>
+    unfold andxBlock at hs
+    unfold andxOffsetBigEndian at hbe
+    unfold andxBytesOf
+    rw [← hget]
+    simp only [if_true, Bool.true_and] at hs hbe ⊢
+    split at hs
+    · rename_i hnone
+      rw [hnone]
+      simp only [Option.some.injEq] at hs
+      subst hs
+      exact ⟨rfl, rfl⟩
+    · rename_i c r o hsome
+      rw [hsome] at hbe ⊢
+      simp only [bne_eq_false_iff_eq] at hbe
+      split at hs
+      · rename_i hb
+        simp only [Option.some.injEq] at hs
+        subst hs
+        have h1 : o / 256 % 256 = o / 256 := Nat.mod_eq_of_lt (by omega)
+        refine ⟨?_, rfl⟩
+        simp only [natLe, List.cons_append, List.nil_append]
+        rw [← hbe, h1]
+      · cases hs
+    · cases hs
 
 /-- the parameter block the code builds is `WordCount, Words` of the specification whenever the
     words (AndX block first) are an even number of bytes and at most 255 words -/
-theorem paramBlock_eq_spec (andx : Bool) (P : Bytes)
-    (h1 : (andxBlock andx ++ P).length % 2 = 0) (h2 : (andxBlock andx ++ P).length / 2 ≤ 255) :
-    paramBlock andx P =
-      UInt8.ofNat ((andxBlock andx ++ P).length / 2) :: (andxBlock andx ++ P) := by
-  have hlen := andxBlock_length andx
+theorem paramBlock_eq_spec (andx : Bool) (ax P : Bytes) (hlen : ax.length = 2 * andxWords andx)
+    (h1 : (ax ++ P).length % 2 = 0) (h2 : (ax ++ P).length / 2 ≤ 255) :
+    paramBlock andx ax P = UInt8.ofNat ((ax ++ P).length / 2) :: (ax ++ P) := by
   simp only [List.length_append, hlen] at h1 h2
   have hP : P.length % 2 = 0 := by omega
-  have hwc : wordCountOf andx P % 256 = (andxBlock andx ++ P).length / 2 := by
+  have hwc : wordCountOf andx P % 256 = (ax ++ P).length / 2 := by
     simp only [wordCountOf, List.length_append, hlen]
     omega
   simp only [paramBlock, hwc, wordsBytes_even P hP]
-  have ha : andxBytes andx = andxBlock andx := by cases andx <;> rfl
-  rw [ha]
   split
   · rfl
   · rename_i h0
-    have : (andxBlock andx ++ P).length = 0 := by
+    have : (ax ++ P).length = 0 := by
       simp only [List.length_append, hlen] at h0 ⊢
       omega
-    have : andxBlock andx ++ P = [] := List.eq_nil_of_length_eq_zero this
+    have : ax ++ P = [] := List.eq_nil_of_length_eq_zero this
     rw [this]
 
 /-- the data block the code builds is `ByteCount` (little-endian) and the bytes, up to 65535 bytes -/
@@ -571,15 +602,16 @@ theorem dataBlock_eq_spec (D : Bytes) (h : D.length ≤ 65535) : dataBlock D = n
 theorem ConformsCore_of_Conforms {c : Cmd} (h : Conforms c = true) : ConformsCore c = true := by
   simp only [Conforms, Bool.and_eq_true] at h
   simp only [ConformsCore, Bool.and_eq_true]
-  obtain ⟨⟨⟨⟨⟨⟨⟨h1, _⟩, h3⟩, h4⟩, h5⟩, h6⟩, h7⟩, _⟩ := h
-  exact ⟨⟨⟨⟨⟨h1, h3⟩, h4⟩, h5⟩, h6⟩, h7⟩
+  obtain ⟨⟨⟨⟨⟨⟨⟨⟨h1, _⟩, h3⟩, h4⟩, h5⟩, h6⟩, h7⟩, h8⟩, _⟩ := h
+  exact ⟨⟨⟨⟨⟨⟨h1, h3⟩, h4⟩, h5⟩, h6⟩, h7⟩, h8⟩
 
 /-- soundness of `ConformsCore`, the nested encoders being required to conform only at the values
-    the fields hold after `Marshal` -/
+    the fields hold after `Marshal`; outside the finding `be:AndXOffset` -/
 theorem conformsCore_sound_at (C : Codecs) (c : Cmd) (hc : ConformsCore c = true)
     (env : Env) (bs : Bytes) (env' : Env) (sb : Bytes)
     (hn : ∀ b f typ, MStmt.sub b f typ ∈ c.marshal → ∀ v', env'.get f = some (.t v') →
       NestedConformsAt C typ v')
+    (hbe : andxOffsetBigEndian c.isAndX env' = false)
     (he : encodeCmd C c env = .ok bs) (ha : envAfterMarshal C c env = .ok env')
     (hs : Spec.Cifs.encode c env' = some sb) : bs = sb := by
   unfold encodeCmd at he
@@ -597,26 +629,35 @@ theorem conformsCore_sound_at (C : Codecs) (c : Cmd) (hc : ConformsCore c = true
       cases hd : encBlock c s.env .D with
       | none => simp [hp, hd] at hs
       | some d =>
-        simp only [hp, hd, Option.bind_eq_bind, Option.bind_some, Option.pure_def] at hs
-        split at hs
-        · cases hs
-        · rename_i hlim
+        cases hax : andxBlock c.isAndX s.env with
+        | none => simp [hp, hd, hax] at hs
+        | some ax =>
+          simp only [hp, hd, hax, Option.bind_eq_bind, Option.bind_some, Option.pure_def] at hs
           split at hs
           · cases hs
-          · rename_i hl
-            have hl' : (layoutM c.marshal).isSome := by
-              cases h : layoutM c.marshal <;> simp_all
-            obtain ⟨hh, hP, hD⟩ := runM_blocks C c hc hl' env s hrun hn
-            have eP := hP p hp
-            have eD := hD d hd
-            subst eP eD
-            simp only [Option.some.injEq] at hs
-            rw [← hs, ← he, hh]
-            have h1 : (andxBlock c.isAndX ++ s.P).length % 2 = 0 := by omega
-            have h2 : (andxBlock c.isAndX ++ s.P).length / 2 ≤ 255 := by omega
-            have h3 : s.D.length ≤ 65535 := by omega
-            rw [paramBlock_eq_spec _ _ h1 h2, dataBlock_eq_spec _ h3]
-            simp
+          · rename_i hlim
+            split at hs
+            · cases hs
+            · rename_i hl
+              have hl' : (layoutM c.marshal).isSome := by
+                cases h : layoutM c.marshal <;> simp_all
+              obtain ⟨hh, hP, hD⟩ := runM_blocks C c hc hl' env s hrun hn
+              have eP := hP p hp
+              have eD := hD d hd
+              subst eP eD
+              -- the AndX block did not change after the prologue wrote it
+              have hunt : andxUntouched c.marshal = true := by
+                simp only [ConformsCore, Bool.and_eq_true] at hc; exact hc.2
+              have hframe : s.env.get andxField = (prologueEnv c.isAndX env).get andxField :=
+                run_env_stable C c.isAndX andxField c.marshal { env := prologueEnv c.isAndX env } s hl' hunt hrun
+              obtain ⟨hab, hlen⟩ := andxBlock_eq c.isAndX (prologueEnv c.isAndX env) s.env ax hframe hbe hax
+              simp only [Option.some.injEq] at hs
+              rw [← hs, ← he, hh, hab]
+              have h1 : (ax ++ s.P).length % 2 = 0 := by omega
+              have h2 : (ax ++ s.P).length / 2 ≤ 255 := by omega
+              have h3 : s.D.length ≤ 65535 := by omega
+              rw [paramBlock_eq_spec _ _ _ hlen h1 h2, dataBlock_eq_spec _ h3]
+              simp
 
 /-! ### no declared field is left out -/
 
